@@ -264,6 +264,12 @@ def build_layout(h: Hist, layout, path):
         r.close()
 
 
+def step_applicable(h: Hist, step):
+    """repack-excl leaves the last commit out of the repack; with a single commit the annotated tag
+    would be left dangling (a corrupt repository, not a stale accelerator)."""
+    return not (step == "repack-excl" and h.n == 1)
+
+
 def layout_applicable(h: Hist, layout):
     if layout in ("pack2", "mixed", "pack2o"):
         return h.n >= 2
@@ -853,6 +859,8 @@ def _layout_key(layout):
     return {"pack1-v1": "idx-v1", "pack1-v3": "idx-v3"}.get(layout, "layout-" + layout)
 
 
+PACK_CLASS = {"loose": "0pack", "pack1": "1pack", "pack1-v1": "1pack", "pack1-v3": "1pack",
+              "pack2": "split-packs", "mixed": "pack+loose", "pack2o": "overlapping-packs"}
 PRIMITIVE = ("getitem", "contains", "get_raw", "iter", "parents", "refs.as_dict", "refs.keys", "refs.get",
              "refs.contains", "refs.read_ref")
 _GRAPH_DEPS = ("parents", "getitem", "contains")
@@ -886,7 +894,7 @@ def judge(acc: Acc, h: Hist, layout, config, step, mode, A, ref, explain, replay
     acc.count("configurations")
     acc.count("queries", len(A))
     cname = cfg_name(config)
-    cls = _accel_class(config)
+    cls = _accel_class(config) if config else "none@" + layout
     if not d:
         acc.outcome("%s:%s:same" % (cls, scen))
         return d
@@ -896,6 +904,9 @@ def judge(acc: Acc, h: Hist, layout, config, step, mode, A, ref, explain, replay
         who = cname
     else:
         who = "combo(%s)" % "+".join(a for a, _ in config) + "[%s]" % ",".join(sorted({v[0] for _, v in config}))
+    if any(a == "bitmap" for a, _ in config):
+        # what a bitmap can know depends on whether its pack is closed under reachability
+        who += "@" + PACK_CLASS[layout]
     left = {}
     for q, (r, g) in d.items():
         why = [nm for nm, other in explain if other.get(q, r) == g]
@@ -949,7 +960,51 @@ def run_fresh(h: Hist, path, step):
         r.close()
 
 
-def run_live(h: Hist, path, config, step):
+def probe_bitmap_files(acc: Acc, h: Hist, path, variant):
+    """Informational (never a violation): what a freshly opened Repo does with the .bitmap files.
+    (a) does find_commit_bitmaps() find the bitmap of a branch tip at all?  (b) does each stored
+    bitmap, decoded with the module's own bitmap_to_object_shas(), equal closure(commit) & pack?"""
+    from dulwich.bitmap import bitmap_to_object_shas, find_commit_bitmaps
+    from dulwich.objects import sha_to_hex
+
+    label = _labels(h)
+    node = {c.id: i for i, c in enumerate(h.commits)}
+    r = _open(path)
+    try:
+        st = r.object_store
+        packs = [p for p in st.packs if os.path.exists(p._bitmap_path)]
+        if not packs:
+            return
+        tips = {h.commits[t].id for t in h.tips}
+        found = _ans(lambda: len(find_commit_bitmaps(set(tips), st.packs)))
+        acc.outcome("bitmap[%s]:on-disk:find_commit_bitmaps-finds-%s-of-the-tips" % (
+            variant, found if _is_exc(str(found)) else ("none" if found == 0 else "some")))
+        for p in packs:
+            bm = _ans(lambda p=p: p.bitmap)
+            if bm is None or _is_exc(bm if isinstance(bm, str) else ""):
+                acc.outcome("bitmap[%s]:on-disk:not-loaded" % variant)
+                continue
+            inpack = {sha_to_hex(e[0]) for e in p.index.iterentries()}
+            for k in list(bm.entries):
+                hexid = sha_to_hex(k) if len(k) == 20 else k
+                if hexid not in node:
+                    acc.outcome("bitmap[%s]:on-disk:entry-for-unknown-object" % variant)
+                    continue
+                want = set()
+                for i in E.bits(h.anc[node[hexid]]):
+                    want |= {h.commits[i].id, h.trees[i].id, h.common.id}
+                    if h.subs[i] is not None:
+                        want.add(h.subs[i].id)
+                    want |= {h.blobs[j].id for j in E.bits(h.anc[i])}
+                got = _ans(lambda k=k, p=p: set(bitmap_to_object_shas(bm.get_bitmap(k), p.index)))
+                ok = got == (want & inpack)
+                acc.outcome("bitmap[%s]:on-disk:stored-bitmap-decodes-to-%s" % (
+                    variant, "closure-within-pack" if ok else "a-different-object-set"))
+    finally:
+        r.close()
+
+
+def run_live(h: Hist, path, config, step, acc=None):
     """A long-lived Repo object: opened first, accelerators written through it (C git variants:
     behind its back), battery answered once (warms every cache); then another Repo object performs
     `step`; the long-lived object answers again.  Returns (answers after writing, answers after
@@ -958,6 +1013,13 @@ def run_live(h: Hist, path, config, step):
     pin = None
     try:
         empty = write_config(path, config, r)
+        if acc is not None and any(a == "bitmap" for a, _ in config) and not empty:
+            from dulwich.bitmap import find_commit_bitmaps
+
+            tips = {h.commits[t].id for t in h.tips}
+            n = _ans(lambda: len(find_commit_bitmaps(set(tips), r.object_store.packs)))
+            acc.outcome("bitmap:live:provider=%s:tip-bitmaps-%s" % (
+                type(r.object_store.get_reachability_provider()).__name__, "found" if n else "not-found"))
         a1 = battery(h, r)
         a2 = None
         if step is not None:
@@ -1030,7 +1092,7 @@ def _reference(h: Hist, step, work, cache):
     return cache[step]
 
 
-def _fresh_answers(h, layout, config, step, work, snap_cache):
+def _fresh_answers(h, layout, config, step, work, snap_cache, acc=None):
     """Answers of a fresh Repo for (layout, config, step); the state after writing the accelerators
     is snapshotted once per (layout, config)."""
     k = (layout, config)
@@ -1039,6 +1101,8 @@ def _fresh_answers(h, layout, config, step, work, snap_cache):
         SS.restore(_base_snapshot(h, layout, work), p)
         empty = write_config(p, config)
         snap_cache[k] = (SS.snapshot(p), empty)
+        if acc is not None and len(config) == 1 and config[0][0] == "bitmap":
+            probe_bitmap_files(acc, h, p, config[0][1])
         if step is None:
             return run_fresh(h, p, None), empty
     snap, empty = snap_cache[k]
@@ -1068,11 +1132,11 @@ def _eval_configs(acc, h, layout, configs, steps, mode, work, refcache, standalo
         k = (config, step)
         if k not in memo:
             if mode == "fresh":
-                memo[k] = _fresh_answers(h, layout, config, step, work, snap_cache)
+                memo[k] = _fresh_answers(h, layout, config, step, work, snap_cache, acc)
             else:
                 p = os.path.join(work, "live")
                 SS.restore(_base_snapshot(h, layout, work), p)
-                a1, a2, empty = run_live(h, p, config, step)
+                a1, a2, empty = run_live(h, p, config, step, acc)
                 memo[k] = (a1 if step is None else a2, empty)
         return memo[k]
 
@@ -1083,6 +1147,8 @@ def _eval_configs(acc, h, layout, configs, steps, mode, work, refcache, standalo
             steps_ = [None] + steps_  # (stand-alone replay of a stale scenario: same suppression as in the batch)
         steps_.sort(key=lambda st: st is not None)
         for step in steps_:
+            if not step_applicable(h, step):
+                continue
             R = _reference(h, step, work, refcache)
             A, empty = answers(config, step)
             if empty and step is None:
@@ -1181,7 +1247,7 @@ def eval_history(acc: Acc, dag, tier, layouts, light=False):
                 continue
             for mode, configs, steps in plan_for(layout, tier, light):
                 _eval_configs(acc, h, layout, configs, steps, mode, work, refcache)
-        acc.count("histories")
+        acc.count("history_tasks")
         acc.count("history_layouts", len([L for L in layouts if layout_applicable(h, L)]))
     finally:
         _SNAP.clear()
@@ -1607,14 +1673,16 @@ def run(ctx):
     ]
     # ---- vacuity guard
     need = [
-        "cg:fresh:same", "midx:fresh:same", "prefs:stale-refs:same", "none:stale-shrink:same",
+        "cg:fresh:same", "midx:fresh:same", "prefs:stale-refs:same", "none@loose:stale-shrink:same",
+        "none@pack1-v1:fresh:same", "none@pack1-v3:fresh:same", "none@pack2o:fresh:same",
+        "bitmap:live:provider=BitmapReachability:tip-bitmaps-found",  # the bitmap path is really taken in live mode
     ]
     absent = [c for c in need if c not in classes]
     if absent:
         raise HarnessError("vacuity guard: outcome classes never observed: %r" % absent)
     if not any(c.startswith("writer-produced-nothing") for c in classes):
         raise HarnessError("vacuity guard: expected the midx writer to produce nothing for loose layouts")
-    if n_.get("damage_mutants", 0) == 0 or n_.get("histories", 0) == 0:
+    if n_.get("damage_mutants", 0) == 0 or n_.get("history_tasks", 0) == 0:
         raise HarnessError("vacuity guard: a phase did not run")
 
 
